@@ -526,3 +526,31 @@ func specIsSubseq(c, s []interface{}) bool {
 	}
 	return specIsSubseq(c, s[1:])
 }
+
+// ---------------------------------------------------------------------
+// Native jd text reader (C02): flush discipline of the line automaton.
+
+// specIsAt: the line starts a hunk.
+func specIsAt(line string) bool {
+	return len(line) > 0 && line[:1] == "@"
+}
+
+// specCountAt: number of hunk headers among the first n lines.
+func specCountAt(lines []string, n int) int {
+	if n <= 0 {
+		return 0
+	}
+	if specIsAt(lines[n-1]) {
+		return specCountAt(lines, n-1) + 1
+	}
+	return specCountAt(lines, n-1)
+}
+
+// specPending: the reader holds a hunk that has not been appended to the result yet.
+// States: INIT=0 META=1 BEFORE=2 AT=3 REMOVE=4 ADD=5 AFTER=6.
+func specPending(state int) int {
+	if state >= 2 && state <= 6 {
+		return 1
+	}
+	return 0
+}
